@@ -60,14 +60,16 @@ def gen_l1(rng):
             ops.append(["S", n, rng.choice([rand_value(rng), rand_value(rng), "", "p1 @ -l", n + " -l"]).replace("\n", "")])
         elif r < 0.45:
             v = rand_value(rng).replace("\n", rng.choice(["", "\n"]))
-            form = rng.choice([n + "=" + v, n + "='" + v + "'", n + '="' + v + '"', "=" + v, n + " =" + v, n + "!=" + v])
+            form = rng.choice(["N" + n + "=" + v, "N" + n + "='" + v + "'", "N" + n + '="' + v + '"', "N=" + v, "N" + n + " =" + v,
+                               "N" + n + "!=" + v, "S" + n + "=" + v, "D" + n + "=" + v, "S" + n + '="' + v + '" x',
+                               "D" + n + "='" + v + "' x"])
             ops.append(["B", form])
         elif r < 0.52:
             ops.append(["B"])
         elif r < 0.60:
-            ops.append(["B", rng.choice(NAMES)])
+            ops.append(["B", "N" + rng.choice(NAMES)])
         elif r < 0.63:
-            ops.append(["B", n, "x"])
+            ops.append(["B", "N" + n, "Nx"])
         elif r < 0.73:
             ops.append(rng.choice([["U", n], ["U", n], ["U"], ["U", n, "x"]]))
         else:
@@ -165,7 +167,10 @@ def layer1(ctx, res):
                 f = ["bi" if o[0] == "B" else "un", str(len(table))]
                 for k in sorted(table):
                     f += [C.enc(k), C.enc(table[k])]
-                f += [str(len(o) - 1)] + [C.enc(a) for a in o[1:]]
+                if o[0] == "B":
+                    f += [str(len(o) - 1)] + [x for a in o[1:] for x in (C.enc({"N": "", "S": "'", "D": '"'}[a[0]]), C.enc(a[1:]))]
+                else:
+                    f += [str(len(o) - 1)] + [x for a in o[1:] for x in ("", C.enc(a))]
                 f += [str(len(rec["unq"]))] + [C.enc(x) for p in rec["unq"] for x in p]
                 mcases.append("\t".join(f))
                 back.append((i, j, o[0], rec, dict(table), tokmap))
@@ -209,6 +214,9 @@ def layer1(ctx, res):
                     res.violate(kind="correspondence", layer="L1", failing_input=False, function="unquote(name)", input=a, impl=b)
                 if len(a) >= 2 and a[0] == "'" and a[-1] == "'" and "'" not in a[1:-1] and "\n" not in a and b != a[1:-1]:
                     res.violate(kind="correspondence", layer="L1", failing_input=False, function="unquote('v')", input=a, impl=b)
+                if len(a) >= 2 and a[0] == '"' and a[-1] == '"' and not any(ch in a[1:-1] for ch in '"$`\\') and "\n" not in a \
+                        and b != a[1:-1]:
+                    res.violate(kind="correspondence", layer="L1", failing_input=False, function='unquote("v")', input=a, impl=b)
     res.count("L1_scenarios", len(scns))
     res.count("L1_model_vs_impl_ops", len(back))
     res.extra["L1_scenarios_skipped_tokenizer_panic"] = skipped
@@ -271,13 +279,13 @@ def l2_script(ops, hp):
             lines.append("alias")
             lines.append("echo")
             lines.append("echo ==end==")
-            exp.append(("list", sorted("alias %s='%s'" % kv for kv in table.items())))
+            exp.append(("list", sorted(listing_line(*kv) for kv in table.items())))
         elif o[0] == "one":
             lines.append("echo ==%d==" % i)
             lines.append("alias %s" % o[1])
             lines.append("echo")
             lines.append("echo ==end==")
-            exp.append(("list", ["alias %s='%s'" % (o[1], table[o[1]])] if table.get(o[1]) else []))
+            exp.append(("list", [listing_line(o[1], table[o[1]])] if table.get(o[1]) else []))
         else:
             _, form, n, args = o
             rest = " ".join(args)
@@ -389,8 +397,8 @@ def layer2(ctx, res, known):
                             stderr=err[-300:], note="real shell: argv reached through aliases / alias listing differs from the property")
             continue
         # feeding the listing back
-        want = sorted("alias %s='%s'" % kv for kv in table.items())
-        in_class = any("'" in v for v in table.values())
+        want = sorted(listing_line(*kv) for kv in table.items())
+        in_class = any("'" in v and any(ch in v for ch in '"$`\\') for v in table.values())
         if again == want:
             if in_class:
                 repaired = True
@@ -416,6 +424,50 @@ def layer2(ctx, res, known):
     res.sample({"layer": "L2", "script": outs[0][6][:14], "trace_partitions": str(outs[0][1])[:500]})
 
 
+def listing_line(n, v):
+    """builtins/alias.rs show_alias_list / show_single_alias"""
+    if "'" in v and not any(ch in v for ch in '"$`\\'):
+        return 'alias %s="%s"' % (n, v)
+    return "alias %s='%s'" % (n, v)
+
+
+def probes_quoted_head(ctx, res, known):
+    """alias NAME=<quoted value> where the value itself starts with a quote of the other kind.  For names holding
+    - or . the tokenizer strips the outer quotes (token text NAME=value, tagged), and alias.rs then unquotes the value
+    a second time because it starts with a quote: the definition is truncated to its first word."""
+    work = tempfile.mkdtemp(prefix="c17p_")
+    cases = []
+    for n in ["x-y", "a.b", "ll", "g_1"]:
+        for v, q in [('"c d" e', "'"), ("'c d' e", '"'), ('"c"', "'"), ("'c' | p1 @", '"')]:
+            cases.append((n, v, q))
+    try:
+        for i, (n, v, q) in enumerate(cases):
+            d = os.path.join(work, "p%d" % i)
+            os.makedirs(os.path.join(d, "bin"))
+            rc, out, err = run_script(ctx, d, "s.sh", ["alias %s=%s%s%s" % (n, q, v, q), "alias %s" % n], os.path.join(d, "tr"))
+            pre = "alias %s=" % n
+            got = out.strip("\n")
+            body = got[len(pre) + 1:-1] if got.startswith(pre) and len(got) >= len(pre) + 2 else None
+            faithful = v
+            res.count("L2_quoted_head_probes", 1)
+            if body == v:
+                if faithful != v:
+                    res.extra.setdefault("findings_no_longer_reproducing", [])
+                    if "define-quoted-head" not in res.extra["findings_no_longer_reproducing"]:
+                        res.extra["findings_no_longer_reproducing"].append("define-quoted-head")
+                res.nontrivial("probe:%s=%s" % (n, v))
+            elif body == faithful and [f for f in known if f.get("class") == "define-quoted-head"]:
+                k = [f for f in known if f.get("class") == "define-quoted-head"][0]
+                res.known("define-quoted-head", "class=define-quoted-head input=alias %s=%s%s%s defines %r what=%s" % (
+                    n, q, v, q, body, k.get("what", "")))
+            else:
+                res.violate(kind="oracle", layer="L2", failing_input=True, input="alias %s=%s%s%s" % (n, q, v, q),
+                            expected=v, observed=got, stderr=err[-200:],
+                            note="after `alias n=v` the listed value is not v")
+    finally:
+        shutil.rmtree(work, ignore_errors=True)
+
+
 def run(ctx, res):
     res.rule = ("L1: random scenarios (3-20 ops) of add_alias / alias builtin argument forms / unalias / expand_alias on lines over "
                 "alias names, pipes (plain, quoted, escaped), xargs; values with quotes of both kinds, pipes, newlines, other alias "
@@ -429,3 +481,4 @@ def run(ctx, res):
     layer1(ctx, res)
     if not ctx.replay_ops:
         layer2(ctx, res, known)
+        probes_quoted_head(ctx, res, known)
